@@ -613,6 +613,9 @@ pub fn judge_stage(stage_no: usize, stage: &Stage, res: &StageResult, expect: &E
         if let Some(pos) = res.trace.iter().position(|e| matches!(e, Ev::Read { ret: 0, .. })) {
             for e in &res.trace[pos + 1..] {
                 if let Ev::Other(what) = e {
+                    if what.starts_with("getenv ") {
+                        continue; // reading a variable is not an effect; dependence on it is tested by re-running with it set
+                    }
                     v.push(viol("C17", "evaluation-touches-ambient-state", stage_no, op.clone(), "after stdin is complete only write(1) / write(2)".into(), what.clone(), needs));
                     break;
                 }
@@ -641,6 +644,8 @@ pub struct CaseStats {
     pub probes: BTreeMap<String, u64>,
     pub unconstrained: u64,
     pub trace_hash: u64,
+    /// set when the violation was found only after setting this discovered environment variable
+    pub env_variant: Option<(String, String)>,
 }
 
 fn bump(m: &mut BTreeMap<String, u64>, k: &str, by: u64) {
@@ -765,6 +770,38 @@ pub fn run_case(env: &Env, case: &Case, oracle: &mut Oracle) -> (Vec<Violation>,
     };
     tally(s1, &r1, &e1, &mut st);
     v.extend(judge_stage(1, s1, &r1, &e1, &op1, budget));
+    // environment variables the process asked for that the generator does not know: set them and run again
+    if v.is_empty() && !unconstrained(s1, &r1) {
+        let mut names: Vec<String> = Vec::new();
+        for e in &r1.trace {
+            if let Ev::Other(w) = e {
+                if let Some(n) = w.strip_prefix("getenv ") {
+                    let known = n.starts_with("RUST_") || n.starts_with("SIMIO_") || n.starts_with("LD_") || n.starts_with("MALLOC_") || n.starts_with("GLIBC_") || n.starts_with("LC_") || n == "LANG" || n == "LANGUAGE" || n == "TZ" || n == "TZDIR" || n == "NLSPATH";
+                    if !known && !names.iter().any(|x| x == n) && !s1.ambient.env.iter().any(|(k, _)| k == n) && names.len() < 3 {
+                        names.push(n.to_string());
+                    }
+                }
+            }
+        }
+        for n in names {
+            for val in ["1", "strict"] {
+                let mut s1b = s1.clone();
+                s1b.ambient.env.push((n.clone(), val.to_string()));
+                let rb = run_stage(env, &case.profile, &s1b, budget);
+                bump(&mut st.fired, "ambient-env-var-discovered-by-getenv", 1);
+                let (eb, opb) = match s1b.form {
+                    Form::Arg => expectation(&s1b.rule_text, Some(&s1b.data_text), oracle),
+                    _ => expectation(&s1b.rule_text, intended_bytes(&s1b, Some(&rb)).as_deref(), oracle),
+                };
+                let vb = judge_stage(1, &s1b, &rb, &eb, &opb, budget);
+                if !vb.is_empty() {
+                    st.env_variant = Some((n.clone(), val.to_string()));
+                    v.extend(vb);
+                    return (v, st);
+                }
+            }
+        }
+    }
     // stage 2: fed with whatever stage 1 wrote to stdout, when stage 1 met its expectation of success
     if let (Some(s2t), Expect::Success { stdout }) = (&case.stage2, &e1) {
         if v.is_empty() && !unconstrained(s1, &r1) && r1.stdout == stdout.as_bytes() {
@@ -1149,7 +1186,12 @@ pub fn main(a: &Args) -> i32 {
         if samples.len() < 3 && has_faults(&case.stage1) && case.stage1.form != Form::Arg {
             samples.push(case.to_json());
         }
-        for (case, v) in found_all {
+        for (mut case, v) in found_all {
+            if let Some((n, val)) = &st.env_variant {
+                if !case.stage1.ambient.env.iter().any(|(k, _)| k == n) {
+                    case.stage1.ambient.env.push((n.clone(), val.clone()));
+                }
+            }
             let sig = format!("{}/{}", v.property, v.class);
             let sig_full = v.signature();
             if !seen.insert(sig_full) {
